@@ -73,8 +73,9 @@ type BigV struct {
 }
 
 type OnceV struct {
-	Done *Term // Bool
-	ID   int
+	Done    *Term // Bool
+	ID      int
+	Running bool
 }
 
 type ObjKind int
